@@ -254,11 +254,16 @@ pub(crate) fn format(input: &str) -> Option<(LeftToParse<'_>, Format<'_>)> {
 
     let (input, arg) = optional_result(argument)(input);
 
+    // `std::fmt` allows whitespace after the argument and before the closing brace.
+    let (input, _) = take_while0(check_char(char::is_whitespace))(input);
+
     let (input, spec) = map_or_else(
         char(':'),
         |i| Some((i, None)),
         map(format_spec, |(i, s)| (i, Some(s))),
     )(input)?;
+
+    let (input, _) = take_while0(check_char(char::is_whitespace))(input);
 
     let input = char('}')(input)?;
 
@@ -452,7 +457,10 @@ fn type_(input: &str) -> Option<(&str, Type)> {
         &mut map(char('b'), |i| (i, Type::Binary)),
         &mut map(char('e'), |i| (i, Type::LowerExp)),
         &mut map(char('E'), |i| (i, Type::UpperExp)),
-        &mut map(lookahead(char('}')), |i| (i, Type::Display)),
+        &mut map(
+            lookahead(check_char(|c| c == '}' || c.is_whitespace())),
+            |i| (i, Type::Display),
+        ),
     ])(input)
 }
 
